@@ -46,9 +46,9 @@ impl ArcSwapH<Vec<Arc<PseudoInode>>> {
     #[verifier::external_body] pub fn new(v: Arc<Vec<Arc<PseudoInode>>>, Tracked(hp): Tracked<&mut PHeap>) -> (r: Self)
         ensures !old(hp).kids.contains_key(r.id()), *final(hp) == (PHeap { kids: old(hp).kids.insert(r.id(), v@), ..*old(hp) }) { unimplemented!() }
     #[verifier::external_body] pub fn load(&self, Tracked(hp): Tracked<&mut PHeap>) -> (r: Arc<Vec<Arc<PseudoInode>>>)
-        requires old(hp).kids.contains_key(self.id()) ensures r@ == old(hp).kids[self.id()], *final(hp) == *old(hp) { unimplemented!() }
+        requires old(hp).kids.contains_key(self.id()) ensures r@ == old(hp).kids[self.id()], *final(hp) == *old(hp), r@.len() <= 0x7fff_ffff_ffff_ffff /* a Vec never holds more than isize::MAX bytes */ { unimplemented!() }
     #[verifier::external_body] pub fn load_clone(&self, Tracked(hp): Tracked<&mut PHeap>) -> (r: Vec<Arc<PseudoInode>>)
-        requires old(hp).kids.contains_key(self.id()) ensures r@ == old(hp).kids[self.id()], *final(hp) == *old(hp) { unimplemented!() }
+        requires old(hp).kids.contains_key(self.id()) ensures r@ == old(hp).kids[self.id()], *final(hp) == *old(hp), r@.len() <= 0x7fff_ffff_ffff_ffff /* a Vec never holds more than isize::MAX bytes */ { unimplemented!() }
     #[verifier::external_body] pub fn store(&self, v: Arc<Vec<Arc<PseudoInode>>>, Tracked(hp): Tracked<&mut PHeap>)
         requires old(hp).kids.contains_key(self.id()) ensures *final(hp) == (PHeap { kids: old(hp).kids.insert(self.id(), v@), ..*old(hp) }) { unimplemented!() }
 }
@@ -425,6 +425,29 @@ pub open spec fn pseudo_entry(e: Entry, ino: u64) -> bool {
     &&& e.attr == (stat64 { st_ino: ino, st_mode: 0o040777u32, st_blksize: 4096, st_atime: e.attr.st_ctime, st_mtime: e.attr.st_ctime, st_ctime: e.attr.st_ctime, ..zero_stat64() })
     &&& e.attr_timeout == (Duration { secs: 0x1_0000_0000, nanos: 0 }) && e.entry_timeout == e.attr_timeout
 }
+// the steps of the listing loop (checked)
+#[verifier::opaque]
+pub open spec fn all_accepted(calls: Seq<CallRec>, pre: Seq<PEnt>) -> bool {
+    calls.len() == pre.len() && forall|j: int| 0 <= j < calls.len() ==> call_matches(#[trigger] calls[j], pre[j]) && accepted(calls[j])
+}
+pub proof fn lemma_all_accepted_empty(run: Seq<PEnt>) ensures all_accepted(Seq::<CallRec>::empty(), run.take(0)) { reveal(all_accepted); }
+pub proof fn lemma_step_accept(run: Seq<PEnt>, i: int, calls: Seq<CallRec>, c: CallRec)
+    requires 0 <= i < run.len(), all_accepted(calls, run.take(i)), call_matches(c, run[i]), accepted(c)
+    ensures all_accepted(calls.push(c), run.take(i + 1))
+{ reveal(all_accepted); }
+pub proof fn lemma_step_stop(run: Seq<PEnt>, i: int, calls: Seq<CallRec>, c: CallRec)
+    requires 0 <= i < run.len(), all_accepted(calls, run.take(i)), call_matches(c, run[i]), !accepted(c)
+    ensures delivered_ok(run, calls.push(c))
+{
+    reveal(all_accepted);
+    let cs = calls.push(c);
+    assert forall|j: int| 0 <= j < cs.len() implies call_matches(#[trigger] cs[j], run[j]) by { if j < calls.len() { assert(cs[j] == calls[j]); assert(run.take(i)[j] == run[j]); } }
+    assert forall|j: int| 0 <= j < cs.len() - 1 implies accepted(#[trigger] cs[j]) by { assert(cs[j] == calls[j]); }
+}
+pub proof fn lemma_step_done(run: Seq<PEnt>, calls: Seq<CallRec>)
+    requires all_accepted(calls, run.take(run.len() as int))
+    ensures delivered_ok(run, calls), calls.len() == run.len(), calls.len() > 0 ==> accepted(calls.last())
+{ reveal(all_accepted); assert(run.take(run.len() as int) =~= run); }
 pub open spec fn dot() -> Seq<char> { seq!['.'] }
 pub open spec fn dotdot() -> Seq<char> { seq!['.', '.'] }
 // lookup(parent, name): "." is the directory itself, ".." its parent (the root is its own parent), any other name the child of that name
@@ -680,36 +703,28 @@ def unit(root='/repo'):
                 (r'child\.name\.clone\(\)\.as_bytes\(\)', 'str_bytes(&child.name)', 'String::clone().as_bytes(): the UTF-8 bytes of a copy of the name -> model str_bytes'),
                 (r'for child in children\[offset as usize\.\.\]\.iter\(\) \{', 'let run = vx_slice_from(&children, offset as usize); for child in run.iter() {',
                  'range indexing `&v[a..]` -> model vx_slice_from (in-bounds is its precondition, i.e. "cannot panic" is proved); the `for` iterator temporary bound to a name')]
-    DR_LOOP = """let ghost es = dir_entries(self.view(*hp), parent); let ghost log0 = add_entry.log(); let ghost kp = mkids(self.im(*hp), *hp, parent);
+    DR_LOOP = """let ghost es = dir_entries(self.view(*hp), parent); let ghost log0 = add_entry.log(); let ghost kp = mkids(self.im(*hp), *hp, parent); let ghost run_e = run_after(es, offset);
         proof {
-            assert(log0.take(log0.len() as int) =~= log0);
-            assert(new_calls(add_entry.log(), log0) =~= Seq::<CallRec>::empty());
-            assert(es.len() == kp.len());
+            assert(es.len() == kp.len() && run_e.len() == run@.len());
             assert forall|j: int| 0 <= j < kp.len() implies es[j].ino == (#[trigger] kp[j]).ino && es[j].name == utf8_enc(kp[j].name@) by {
                 assert(mkids(self.im(*hp), *hp, parent)[j] == kp[j]); assert(self.im(*hp)[kp[j].ino] == kp[j]);
             }
+            lemma_all_accepted_empty(run_e);
         }
         let ghost mut stopped = false;
+        #[verifier::loop_isolation(false)]
         for child in it: run.iter()
             invariant_except_break !stopped,
             invariant
-                *hp == *old(hp), log0 == old(add_entry).log(), extends(add_entry.log(), log0), run@ == kp.skip(offset as int), offset < kp.len(), es.len() == kp.len(),
-                es == dir_entries(self.view(*hp), parent), forall|j: int| 0 <= j < kp.len() ==> es[j].ino == (#[trigger] kp[j]).ino && es[j].name == utf8_enc(kp[j].name@),
-                !stopped ==> next == offset + 1 + it.index@ && new_calls(add_entry.log(), log0).len() == it.index@, // [C16.pseudo.do_readdir.offsets] entry i carries offset i + 1: resuming from it starts right after that entry
-                forall|j: int| 0 <= j < new_calls(add_entry.log(), log0).len() ==> call_matches(#[trigger] new_calls(add_entry.log(), log0)[j], es[offset + j]), // [C16.pseudo.do_readdir.entry] every child of the run is offered with its own number, offset and name, in order
+                extends(add_entry.log(), log0),
+                !stopped ==> next == offset + 1 + it.index@, // [C16.pseudo.do_readdir.offsets] entry i carries offset i + 1: resuming from it starts right after that entry
+                !stopped ==> all_accepted(new_calls(add_entry.log(), log0), run_e.take(it.index@ as int)), // [C16.pseudo.do_readdir.loop] every child of the run so far was offered once, in order, and accepted
+                stopped ==> delivered_ok(run_e, new_calls(add_entry.log(), log0)) && new_calls(add_entry.log(), log0).len() > 0 && new_calls(add_entry.log(), log0).last().ok == Some(0usize), // [C16.pseudo.do_readdir.stop] Ok(0) = no room: stop there without skipping the entry
                 forall|j: int| 0 <= j < new_calls(add_entry.log(), log0).len() ==> (#[trigger] new_calls(add_entry.log(), log0)[j]).ty == DT_DIR, // [C16.pseudo.do_readdir.type]
-                !stopped ==> forall|j: int| 0 <= j < new_calls(add_entry.log(), log0).len() ==> accepted(#[trigger] new_calls(add_entry.log(), log0)[j]),
-                stopped ==> delivered_ok(run_after(es, offset), new_calls(add_entry.log(), log0)) && new_calls(add_entry.log(), log0).last().ok == Some(0usize), // [C16.pseudo.do_readdir.stop] Ok(0) = no room: stop there, the entry is offered again by the next call
         {
             let ghost log1 = add_entry.log(); let ghost i = it.index@ as int;
-            proof { assert(*child == kp[offset + i]); }"""
-    DR_ARMS = """proof {
-                let calls1 = new_calls(log1, log0); let calls = new_calls(add_entry.log(), log0); let c = add_entry.log().last();
-                assert(calls =~= calls1.push(c));
-                assert(add_entry.log().take(log0.len() as int) =~= log1.take(log0.len() as int));
-                assert(call_matches(c, es[offset + i]));
-                assert(run_after(es, offset)[i] == es[offset + i]);
-            }"""
+            proof { assert(*child == kp[offset + i]); assert(run_e[i] == es[offset + i]); }"""
+    DR_ARM = 'proof { let calls1 = new_calls(log1, log0); let c = add_entry.log().last(); assert(new_calls(add_entry.log(), log0) =~= calls1.push(c)); assert(add_entry.log().take(log0.len() as int) =~= log1.take(log0.len() as int)); assert(call_matches(c, run_e[i])); /* [C16.pseudo.do_readdir.entry] the child is offered with its own number, offset and name */ %s }'
     dr = tok(Fn(PFS, PP, 'do_readdir', props=P16, canary=True, ret_name='res', sig_subst=DR_SIG, body_resub=DR_RESUB,
                 requires=['self.wf(*old(hp))'],
                 ensures=['%s == %s // [C16.pseudo.do_readdir.frame] listing changes nothing' % (H1, H0),
@@ -722,11 +737,14 @@ def unit(root='/repo'):
                          'size != 0 && self.view(*old(hp)).nodes.contains_key(parent) ==> (res is Err <==> %s.len() > 0 && %s.last().ok is None) // [C16.pseudo.do_readdir.err] an error is the callback\'s own, handed on; the listing itself cannot fail' % (CALLS, CALLS)],
                 splices=[('||', 'closure', ENOENT_CL),
                          ('^', 'after', 'proof { let l = add_entry.log(); assert(l.take(l.len() as int) =~= l); assert(new_calls(l, l) =~= Seq::<CallRec>::empty()); }'),
-                         ('let mut next = offset + 1;', 'before', 'proof { assert(offset < u64::MAX); } // [C16.pseudo.do_readdir.offset_overflow]'),
+                         ('let mut next = offset + 1;', 'before', '''proof {
+            assert(offset < u64::MAX); // [C16.pseudo.do_readdir.offset_overflow]
+        }'''),
                          ('let run = vx_slice_from(&children, offset as usize); for child in run.iter() {', 'replace', 'let run = vx_slice_from(&children, offset as usize);\n' + DR_LOOP),
-                         ('Ok(0) => break,', 'replace', 'Ok(0) => { ' + DR_ARMS.replace('\n', ' ') + ' proof { stopped = true; } break },'),
-                         ('Ok(_) => next += 1,', 'replace', 'Ok(_) => { ' + DR_ARMS.replace('\n', ' ') + ' next += 1 },'),
-                         ('Err(r) => return Err(r),', 'replace', 'Err(r) => { ' + DR_ARMS.replace('\n', ' ') + ' return Err(r) },')]),
+                         ('Ok(0) => break,', 'replace', 'Ok(0) => { ' + DR_ARM % 'lemma_step_stop(run_e, i, calls1, c); stopped = true;' + ' break },'),
+                         ('Ok(_) => next += 1,', 'replace', 'Ok(_) => { ' + DR_ARM % 'lemma_step_accept(run_e, i, calls1, c);' + ' next += 1 },'),
+                         ('Err(r) => return Err(r),', 'replace', 'Err(r) => { ' + DR_ARM % 'lemma_step_stop(run_e, i, calls1, c);' + ' return Err(r) },'),
+                         ('Ok(())\n    }', 'before', 'proof { if !stopped { lemma_step_done(run_e, new_calls(add_entry.log(), log0)); } }')]),
              ['load'])
     RD_SIG = [('fn readdir(', 'fn readdir<A: AddEntry>('), ('add_entry: &mut dyn FnMut(DirEntry) -> Result<usize>', 'add_entry: &mut A'), ('_: u64', '_fh: u64')]
     rd = tok(Fn(PFS, FS, 'readdir', props=P16, canary=True, ret_name='res', sig_subst=RD_SIG,
